@@ -28,7 +28,7 @@ CHECK = {
                   "(untranslated homogeneous 4x4 / lifted 5x5 determinant, first-row expansion); adaptive must "
                   "equal exact on every input; the point permutations (all 24/120 for alphabets and corner families, "
                   "a stated subset with both parities for the grids) must flip or keep the sign. Part "
-                  "'rescale': the real NewVoronoiGrid constructor is run on sides^3 x anchors^3 box alphabets and every "
+                  "'rescale': the real NewVoronoiGrid constructor is run on sides^3 x anchors^3 box alphabets plus a mantissa sweep of the largest side (64, thorough 512, equidistant mantissas, the neighbours of 1 and 2 and the sides at which 3..10 times the side crosses a power of two; x 3 exponents (thorough 6) x largest axis x 3 shapes x 3 anchors) and every "
                   "coordinate it hands to the predicates (rescaled generators, wall copies, tetrahedron corners) must "
                   "lie in [1,2). The property quantifies over a continuum, so it is decided on these alphabets only.",
     "level_note": "Exhaustive over the listed alphabets and families, nothing is claimed for other coordinates. "
